@@ -1307,7 +1307,12 @@ static void gen_expr(Node *node) {
     case ND_NE:
     case ND_LT:
     case ND_LE:
-      println("  fcomip");
+      // A quiet NaN is an invalid operand for the relational operators
+      // only; the equality operators compare it quietly.
+      if (node->kind == ND_EQ || node->kind == ND_NE)
+        println("  fucomip");
+      else
+        println("  fcomip");
       println("  fstp %%st(0)");
 
       if (node->kind == ND_EQ) {
